@@ -87,8 +87,8 @@ class Oracle:
         k = op[0]
         res = row["res"]
         prev = self.prev
-        state_fields = [f for f in row if f not in ("res", "trig")]
-        unchanged = prev is not None and all(row[f] == prev[f] for f in state_fields)
+        state_fields = [f for f in row if f not in ("res", "trig", "extra")]
+        unchanged = prev is not None and all(row[f] == prev.get(f) for f in state_fields)
         before_items = self.avail(prev) if prev else []
         wf = None
         if "now" in row and row["now"] != "":
@@ -182,6 +182,8 @@ class Oracle:
         # C04 is a statement about the end of an API call / internal event
         if pput and n_inside + len(gput) < self.cap and self.kind not in ("belt", "slot"):
             self.v("C04", i, "put request(s) %s pending with %d free unit(s)" % (pput, self.cap - n_inside - len(gput)))
+        if pput and self.kind in ("belt", "slot") and "stuck-put" in row.get("extra", ""):
+            self.v("C04", i, "entry request(s) %s pending on the belt although its admission test accepts a request made now and none is granted" % (pput,))
         if pget and len(gget) < len(self.avail(row)):
             if self.kind != "filter":
                 self.v("C04", i, "get request(s) %s pending with %d unreserved available item(s)" %
